@@ -209,7 +209,9 @@ class EphysAlfCreator(object):
         for probe in np.unique(self.model.channel_probes):
             ind = self.model.channel_probes == probe
             rawInd[ind] = self.model.channel_mapping[ind] - channel_offset
-            channel_offset += np.max(self.model.channel_mapping[ind])
+            # Merger.write_channel_data shifts each probe by the maximum of the previous probe's
+            # already shifted channel map: that maximum is the next offset (not an increment).
+            channel_offset = np.max(self.model.channel_mapping[ind])
         self._save_npy(rawInd_path.name, rawInd)
 
     def make_depths(self):
